@@ -17,6 +17,8 @@ import (
 	"testing"
 	"time"
 
+	"github.com/ipfs/go-cid"
+	"github.com/multiformats/go-multibase"
 	"go.uber.org/zap"
 
 	"github.com/anyproto/any-sync/app/logger"
@@ -740,6 +742,42 @@ func mutationCases(c *vk.Ctx, f *fixture, vals int, run func(func())) {
 			return &treechangeproto.RawTreeChangeWithId{RawChange: v.RawChange, Id: string(id)}, false
 		}})
 	}
+	// other spellings of the very same content hash (the id must be exactly the canonical string): one letter in the
+	// other case at every position, the whole id in upper case, the same cid in other multibases
+	respell := func(label string, f func(id string) string) {
+		muts = append(muts, mut{"id-respelled", label, func(w *world, _, v *treechangeproto.RawTreeChangeWithId) (*treechangeproto.RawTreeChangeWithId, bool) {
+			id := f(v.Id)
+			if id == v.Id || id == "" {
+				return nil, false
+			}
+			return &treechangeproto.RawTreeChangeWithId{RawChange: v.RawChange, Id: id}, false
+		}})
+	}
+	for pos := 0; pos < len(v0.Id); pos++ {
+		pos := pos
+		respell(fmt.Sprintf("other case at position %d", pos), func(id string) string {
+			b := []byte(id)
+			if b[pos] >= 'a' && b[pos] <= 'z' {
+				b[pos] -= 'a' - 'A'
+			}
+			return string(b)
+		})
+	}
+	respell("upper case", strings.ToUpper)
+	for _, enc := range []multibase.Encoding{multibase.Base58BTC, multibase.Base32Upper, multibase.Base36, multibase.Base16, multibase.Base64} {
+		enc := enc
+		respell("multibase "+multibase.EncodingToStr[enc], func(id string) string {
+			c, err := cid.Decode(id)
+			if err != nil {
+				return ""
+			}
+			out, err := c.StringOfBase(enc)
+			if err != nil {
+				return ""
+			}
+			return out
+		})
+	}
 	// field edits: edit(tc) changes the signed TreeChange; resign selects who signs afterwards (nil = keep the old signature)
 	type fieldEdit struct {
 		name   string
@@ -842,6 +880,9 @@ func mutationCases(c *vk.Ctx, f *fixture, vals int, run func(func())) {
 				}
 				w, base, v := mk()
 				mutated, allowed := m.make(w, base, v)
+				if mutated == nil {
+					return
+				}
 				if mutated.Id == v.Id && string(mutated.RawChange) == string(v.RawChange) {
 					return
 				}
